@@ -284,7 +284,11 @@ func (p *c12) exec(t *testing.T, scAny any) Outcome {
 	}
 	runProducer := func(j int, where string, mode string, k int) {
 		spec := healthy.clone()
-		if !spec.canFail(j) {
+		if strings.HasSuffix(where, "!open") {
+			if !spec.canFailOpen(j) {
+				return
+			}
+		} else if !spec.canFail(j) {
 			return
 		}
 		// "start#1" = only the first invocation of the producer fails, "#2" only the second
@@ -357,6 +361,8 @@ func (p *c12) exec(t *testing.T, scAny any) Outcome {
 					runProducer(j, where+"!"+ek, "", -1)
 				}
 			}
+			// the source has vanished between attaching and rendering
+			runProducer(j, "start!open", "", -1)
 		}
 		// combinations: one producer fault and one sink fault, sampled
 		r := sim.NewRand(sc.Seed)
